@@ -1,6 +1,6 @@
 """Contracts for the metadata source's path scheme and forget operations (property C05: "every storage backend behaves like one dictionary of
 memoized calls"; anchored: DataSourceMetadataSource path scheme and forget by directory / file prefix): _get_function_path, _get_path,
-_get_metadata_path, _get_metadata_key, forget_call, forget_function, forget_everything.
+_get_metadata_path, _get_metadata_key, forget_call, forget_function, forget_everything, put_memento, write_metadata, list_mementos.
 
 The layout of the metadata area (documented store layout, shared with other implementations):
     m/<qualified name>/<argument hash>.memento.json                       the memento of a call
@@ -22,7 +22,8 @@ def load(R):
     R.attr("arg_hash", TStr)
     R.attr("fn_reference", TObj("nn:FunctionReference"))
     R.attr("data_source", TObj("nn:DataSource"))
-    for n, (a, r) in dict(dirname=([TStr], TStr), basename=([TStr], TStr), listing=([TObj(), TStr, TStr, TBool], TObj()), del_rec=([TStr, TBool], TObj())).items():
+    for n, (a, r) in dict(dirname=([TStr], TStr), basename=([TStr], TStr), listing=([TObj(), TStr, TStr, TBool], TObj()), del_rec=([TStr, TBool], TObj()),
+                          listing_f=([TObj(), TObj(), TObj()], TObj()), memento_at=([TObj(), TStr], TObj())).items():
         R.uf(n, a, r)
     ufs = {k: v[0] for k, v in R.ufs.items()}
     R.external("os.path.dirname", returns=TStr, ensures=["result == dirname(arg0)"])
@@ -34,15 +35,19 @@ def load(R):
     def list_keys(ex, recv, args, kwargs):
         """data_source.list_keys_nonversioned(directory=, file_prefix=, recursive=): recorded; the result is the listing of (source, directory, prefix,
         recursive) -- an arbitrary finite list of keys."""
-        if args or not {"directory", "file_prefix", "recursive"} <= set(kwargs) or set(kwargs) - {"directory", "file_prefix", "recursive"}:
+        if args or not {"directory", "file_prefix", "recursive"} <= set(kwargs) or set(kwargs) - {"directory", "file_prefix", "recursive", "limit", "endswith"}:
             raise Unsupported("list_keys_nonversioned of this shape")
         d = ex.get_attr(kwargs["directory"], "key") if not isinstance(kwargs["directory"], VRec) else VStr(DKey.get(kwargs["directory"].t, "key"))
         o = ufs["listing"](recv.t, ex.to_term(d, TStr), ex.to_term(kwargs["file_prefix"], TStr), ex.to_term(kwargs["recursive"], TBool))
+        if "limit" in kwargs or "endswith" in kwargs:
+            # the filtered listing: at most `limit` of the keys whose name ends with `endswith` (None: no bound / no filter)
+            o = R.ufs["listing_f"][0](o, ex.box(kwargs.get("limit", VNone)), ex.box(kwargs.get("endswith", VNone)))
         g = ex.st.ghost
         lst = ex.cont(g["listed"])
         g["listed"] = ex.new_box(lst.replace(arr=z3.Store(lst.arr, lst.n, o), n=lst.n + 1))
         res = ex.sym(TList(DKey), "listing!%d" % ex._bump())
-        ex.st.ghost["last_listing"] = res
+        # the ghost keeps its own copy: the loop over the returned list havocs the ghost (the listing call is part of the `for` statement), the invariants tie it back
+        ex.st.ghost["last_listing"] = ex.new_box(ex.cont(res))
         return res
     R.obj_method_hooks["list_keys_nonversioned"] = list_keys
 
@@ -93,6 +98,26 @@ def load(R):
                modifies=["ghost:deleted", "ghost:listed", "ghost:last_listing"])
     R.assume("metadata source: os.path.dirname / basename are uninterpreted functions of the path string (for 'a/b' with no '/' in b they give a and b: not needed by "
              "the proof); list_keys_nonversioned / delete_all_versions of the data source are recorded, their effect on the store is the DataSource interface contract")
+
+    # ---------------------------------------------------------------- listings: list_mementos
+    # From the property ("listings enumerate exactly the live entries"; C12: "entries stored under it can be found again by ... listings"): the mementos of a function
+    # are read from ONE listing -- of that function's own directory, not recursive, no name prefix, only the '<hash>.memento.json' files, at most `limit` of them --
+    # and the result is the memento read from every listed key, in the order listed, nothing dropped and nothing added.
+    R.obj_method("_read_memento", types={"self": TObj(), "arg0": DKey}, returns=TObj(), ensures=["same(result, memento_at(self, arg0.key))"], raises={"Exception+": []},
+                 notes="reading one memento (input_nonversioned + json + decode_memento; decode_memento is proved under C11): a function of the source and the key, or whatever reading raises; writes nothing")
+    R.contract(D + "list_mementos", prop="C05", types={"self": DMS, "fn": FR, "limit": TOpt(TInt)}, returns=TList(TObj()), ghost_params=dict(GH, last_listing=TList(DKey)),
+               ensures=["len(ghost('listed')) == old(len(ghost('listed'))) + 1",
+                        "same(ghost('listed')[old(len(ghost('listed')))], listing_f(listing(self.data_source, FPATH(fn), '', False), limit, '.memento.json'))",
+                        "len(result) == len(ghost('last_listing'))",
+                        "forall(int, lambda j: implies(0 <= j and j < len(result), same(result[j], memento_at(self, ghost('last_listing')[j].key))))",
+                        "len(ghost('deleted')) == NDEL()"],
+               raises={"Exception+": ["len(ghost('deleted')) == NDEL()"]},
+               loops={1: ["len(result) == loop_i", "len(ghost('last_listing')) == loop_n", "forall(int, lambda j: implies(0 <= j and j < loop_n, ghost('last_listing')[j] == loop_list[j]))",
+                          "forall(int, lambda j: implies(0 <= j and j < loop_i, same(result[j], memento_at(self, ghost('last_listing')[j].key))))",
+                          "len(ghost('listed')) == old(len(ghost('listed'))) + 1", "len(ghost('deleted')) == NDEL()",
+                          "same(ghost('listed')[old(len(ghost('listed')))], listing_f(listing(self.data_source, FPATH(fn), '', False), limit, '.memento.json'))"]},
+               labels={"local_types": {"result": TList(TObj())}},
+               modifies=["ghost:listed", "ghost:last_listing"])
 
     # ---------------------------------------------------------------- writes: put_memento, write_metadata
     # From the property (one dictionary of calls): the memento of a call is written under THAT call's memento path; a metadata entry under the call's metadata
